@@ -41,6 +41,21 @@ PROPOSED = [
              "e- 10 MeV, UniformZField 3.5019461121752274 T, pos=(3,1,0) dir=(0,1,0), step 0.25 cm: end point 0.558 cm "
              "from the analytic helix. Scoped to trajectory-dependent oracle clauses with stepper=zhelix; the "
              "propagator's API clauses are still enforced with this stepper."},
+    {"id": "F-FIELD-3", "property": "C08", "status": "known", "match": {"clause": "C08.VolumeUnchanged.AfterReentrantRetry"},
+     "what": "start on a boundary at near-tangent incidence with the field bending the track back through that boundary: "
+             "after the re-entrant retries (substep halved 18 times) a substep of 3.7e-7 cm is accepted, which clears the "
+             "navigator's on-surface state while the point is still within rounding of the surface; the next chord then "
+             "finds no boundary and the call returns the FULL step with boundary=false although the end point is "
+             "3.3e-5 cm (11 delta_intersection) inside the neighbouring volume (fresh point location 6, tracked 1). Input "
+             "(directed case tangent-reentrant-tunnel of vfield): field-layers.org.json, initialise at "
+             "(-2.0373360902870123,-4.6,-5.3647854036796954) dir (0,1,0), find_next_step, move_to_boundary (y=-4.5), "
+             "cross_boundary, set_dir(-0.41147573926553804,1.5396779770717857e-09,-0.91142071295087379); e- "
+             "E=25.144611585570882 MeV, UniformField (-0.22577030647027949,0.36571352331286833,-0.35195297480732179) T, RK4 "
+             "(Dormand-Prince likewise), step=0.097136967629794929, minimum_step=2.1604498769836856e-07, "
+             "delta_chord=0.054968308343820799, delta_intersection=2.9731611968176892e-06, max_substeps=3 (all within "
+             "validate_input). With the default options the same start gives a bump instead. Scoped by the spec to calls that "
+             "started on a boundary and took the re-entrant retry branch; a volume change without a reported boundary "
+             "anywhere else is a VIOLATION."},
 ]
 
 
@@ -67,12 +82,13 @@ def _design(ctx):
             dict(module="FieldPropMC", cfg="FieldPropMC_sim", workers=2, simulate=150 if q else 2000, depth=40,
                  seed=ctx.seed, timeout=2400, heap="4g")]
     names = ["main", "8x2", "probe", "sim"]
+    jobs.insert(0, dict(module="FieldPropMC", cfg="FieldPropMC_8x3", workers=6, deadlock=True, timeout=3000, heap="8g"))
+    names.insert(0, "8x3")
     if not q:
-        jobs += [dict(module="FieldPropMC", cfg="FieldPropMC_8x3", workers=6, deadlock=True, timeout=3000, heap="8g"),
-                 dict(module="FieldPropMC", cfg="FieldPropMC_live", workers=4, deadlock=True, timeout=3000, heap="6g"),
+        jobs += [dict(module="FieldPropMC", cfg="FieldPropMC_live", workers=4, deadlock=True, timeout=3000, heap="6g"),
                  dict(module="FieldPropMC", cfg="FieldPropMC_alt", workers=4, deadlock=True, timeout=3000, heap="6g")]
-        names += ["8x3", "live", "alt"]
-    results = vlib.tlc_parallel(jobs, maxpar=4)
+        names += ["live", "alt"]
+    results = vlib.tlc_parallel(jobs, maxpar=5)
     st = tr = 0
     scripts = set()
     probe_found = False
@@ -233,11 +249,11 @@ def run(ctx):
                 if rec.get("e") in ("Scripted", "Real"):
                     records += 1
                     byid[rec["id"]] = rec
-                    key = json.dumps([rec.get("P"), rec["calls"], rec["res"]], sort_keys=True)
+                    key = json.dumps([rec.get("P"), rec.get("in"), rec.get("calls"), rec.get("res")], sort_keys=True)
                     distinct.add(hash(key))
                     if len(samples) < 6 and i in (3, 40):
                         s = {k: rec[k] for k in ("e", "P", "in", "calls", "res") if k in rec}
-                        s["calls"] = s["calls"][:24]
+                        s["calls"] = s.get("calls", [])[:24]
                         samples.append(s)
         firsts = {}
         for clause, rid, line in summ["viol"]:
@@ -276,7 +292,7 @@ def run(ctx):
                 "result) -- every record drives the loop at least once, so none is trivial",
         "behaviours_emitted": len(scripts), "scripted_replayed": stat.get("scripted", 0), "real_calls": stat.get("real", 0),
         "impl_stats": stat, "clause_counts": cnt, "design_probe_counterexample": probe_found,
-        "model_constants": dict(MODEL, steps=[64, 256, 512, 1024, 2048], max_substeps=[2, 3] if not q else "2,3 (step 2048: 2 only)"),
+        "model_constants": dict(MODEL, steps=[64, 256, 512, 1024, 2048], max_substeps=[2, 3]),
     })
     ctx.assumptions += [
         "scripted world is 1-D: chord = s or s/2 along +x, momentum identified by tokens; lengths are multiples of 2^-20 cm so the code's double arithmetic is exact (LatticeExact checked by TLC, `exact` flag checked per record)",
